@@ -4,6 +4,7 @@ import (
 	"encoding/json"
 	"math/rand"
 	"os"
+	"sort"
 	"testing"
 
 	"verif/harness/wire"
@@ -24,6 +25,7 @@ type HeldCfg struct {
 	UnknownFids   bool     `json:"unknownfids"`
 	EventLoop     bool     `json:"eventloop"` // answers are delivered by one goroutine of the implementation, one after the other
 	CloseVariants bool     `json:"closevariants"`
+	CbHold        bool     `json:"cbhold"` // FidDestroy callbacks are slow too: they stay parked like the held requests (a clunk blocked in the implementation)
 }
 
 func subsets(n, kmax int) [][]int {
@@ -65,6 +67,9 @@ func (k *Case) completeExcept(held map[int]bool, max int) {
 			if (st[0] == "ImplRespond" || st[0] == "ImplLate") && held[toInt(st[1])] {
 				continue
 			}
+			if st[0] == "CbReturn" && k.cbHold {
+				continue
+			}
 			if st[0] == "ImplRespond" && st[2] != "ok" {
 				continue
 			}
@@ -99,7 +104,17 @@ func (k *Case) quiet(held []int) {
 		if p.Point == "impl" && p.Conn == k.ch.Idx {
 			h = append(h, p.Req)
 		}
+		if p.Point == "cb_destroy" && p.Conn == k.ch.Idx {
+			// the request whose post-processing is inside the slow callback (the clunk, or the last user of a clunked
+			// fid) is blocked in the implementation
+			for n, kd := range k.kinds {
+				if kd != "Flush" && k.answered[n] && n <= len(k.ch.Reqs) && int(k.ch.Reqs[n-1].Tc.Fid) == p.Fid {
+					h = append(h, n)
+				}
+			}
+		}
 	}
+	sort.Ints(h)
 	_ = held
 	k.C.Emit(Event{"ev": "quiet", "parked": k.C.ParkedKeys(), "held": h})
 }
@@ -165,6 +180,10 @@ func TestHeld(t *testing.T) {
 				k.StartLoop()
 				defer close(k.loop)
 			}
+			if hc.CbHold {
+				k.C.Ops.GateCb, k.C.Ops.GateCbAlways = true, true
+				k.cbHold = true
+			}
 			send := func(i int) bool {
 				kind := hc.Kinds[rng.Intn(len(hc.Kinds))]
 				tag := i
@@ -177,6 +196,9 @@ func TestHeld(t *testing.T) {
 				fidn := 1
 				if hc.UnknownFids && rng.Intn(3) == 0 && cfg.NF >= 2 {
 					fidn = 2 // never attached: refused by the framework with 'unknown fid'
+				}
+				if hc.CbHold {
+					fidn = 1 + rng.Intn(cfg.NF) // all attached initially
 				}
 				st := []any{"Recv", kind, tag, fidn, 0, 0}
 				if err := k.Do(st); err != nil {
@@ -237,7 +259,8 @@ func TestHeld(t *testing.T) {
 					k.quiet(nil)
 				}
 			}
-			// requests of H that were queued behind other held ones
+			// requests of H that were queued behind other held ones; the slow callbacks return
+			k.cbHold = false
 			k.completeExcept(map[int]bool{}, 5000)
 			if !k.Closed {
 				k.quiet(nil)
